@@ -44,7 +44,10 @@
                                                      identity_full_fails (HELLO value survives),
                                                      identity_local_authid_full (def),
                                                      identity_local_authid_full_fails
+  no HELLO value under a key the HELLO loop skips    identity_of_hello_skip
   shown to others = recorded                         clean_preserves_identity
+  transport.auth is not shown                        clean_hides_transport_auth,
+                                                     clean_transport_auth_non_dict_shown
 -/
 import Nexus.Auth.Shape
 import Nexus.Auth.Rest
@@ -61,7 +64,8 @@ theorem source_shape :
     Gen.Auth.attachOrder =
       ["recvHello", "helloTypeCheck", "emptyRealmCheck", "realmLookup", "normalizeDetails", "newSession",
        "rolesCheck", "transportDetails", "authClient", "authErrorCheck", "mergeHello", "mergeWelcome",
-       "setSession", "assignSessDetails", "handleSession", "sendWelcome"] ∧
+       "setSession", "assignSessDetails", "handleSession"] ∧
+    Gen.Auth.welcomeSentBy = "handler" ∧
     Gen.Auth.abortReasons =
       ["ErrProtocolViolation", "ErrNoSuchRealm", "ErrSystemShutdown", "ErrNoSuchRealm", "ErrNoSuchRealm",
        "ErrSystemShutdown", "ErrNoSuchRole", "ErrAuthenticationFailed", "ErrSystemShutdown"] ∧
@@ -207,7 +211,9 @@ theorem reasonOf_mem {why : Why} (h : why.isDrop = false) : reasonOf why ∈ abo
 
 /-- `abort_otherwise`: every handshake ends in exactly one of three ways.
     (1) WELCOME: the condition of `welcome_iff` holds, the session joined, WELCOME is the last
-        message and nothing but CHALLENGEs precede it.
+        message and nothing but CHALLENGEs precede it (since the session handler sends WELCOME
+        without blocking, it is dropped — the transcript then ends before it — when the client's
+        queue is full; no ABORT is ever part of such a transcript).
     (2) ABORT: the condition does not hold; ABORT (with one of the five reasons, determined by the
         failing branch) is the last message, nothing but CHALLENGEs precede it, no join.
     (3) nothing was received within helloTimeout (silence or a closed connection): the peer is
@@ -215,7 +221,8 @@ theorem reasonOf_mem {why : Why} (h : why.isDrop = false) : reasonOf why ∈ abo
 theorem abort_otherwise (fx : Facts) (rt : RouterCfg) (env : Env) (arr : List Arrival) :
     (∃ sid sess w, (attach fx rt env arr).outcome = .welcome sid sess w ∧
         (attach fx rt env arr).joined = true ∧
-        ∃ pre, (attach fx rt env arr).sent = pre ++ [.welcome sid w] ∧ OnlyChallenges pre) ∨
+        ∃ pre, OnlyChallenges pre ∧
+          ((attach fx rt env arr).sent = pre ++ [.welcome sid w] ∨ (attach fx rt env arr).sent = pre)) ∨
     (∃ reason why, (attach fx rt env arr).outcome = .abort reason why ∧
         (¬ ∃ sid sess w, Welcomed fx rt env arr sid sess w) ∧
         (attach fx rt env arr).joined = false ∧ reason = reasonOf why ∧ reason ∈ abortURIs ∧
@@ -492,7 +499,7 @@ theorem cryptosign_replay_witness (fx : Facts) (hfm : fx.firstMatch = true) :
     (fx.csChecksChallenge = true →
       (attach fx witnessRouter (witnessEnv [1]) witnessArrivals).outcome =
         .abort Gen.N.ErrAuthenticationFailed .invalidSignature) := by
-  obtain ⟨fm, cs, hs, ws, sk⟩ := fx
+  obtain ⟨wnb, fm, cs, hs, ws, sk⟩ := fx
   simp only at hfm
   subst hfm
   constructor
@@ -519,8 +526,8 @@ theorem bound_to_this_challenge {fx : Facts} (hfm : fx.firstMatch = true) {rt : 
       ((env.isLocal = true ∧ rc.requireLocalAuth = false) ∨
        ∃ a method, FirstConfigured (realmAuths rc) (offeredMethods (helloDetails env details)) method a ∧
          match a with
-         | .anonymous _ => (attach fx rt env arr).sent = [.welcome sid w]
-         | .custom _ _ => (attach fx rt env arr).sent = [.welcome sid w]
+         | .anonymous _ => (attach fx rt env arr).sent = [.welcome sid w] ∨ (attach fx rt env arr).sent = []
+         | .custom _ _ => (attach fx rt env arr).sent = [.welcome sid w] ∨ (attach fx rt env arr).sent = []
          | .ticket ks t =>
            alreadyAuth ks.bypass ((helloDetails env details).optString "authid") (helloDetails env details) = true ∨
            ((attach fx rt env arr).sent = [.challenge "ticket" [], .welcome sid w] ∧
@@ -549,8 +556,16 @@ theorem bound_to_this_challenge {fx : Facts} (hfm : fx.firstMatch = true) {rt : 
     rw [hfm] at hg
     refine Or.inr ⟨a, method, getAuthenticator_first hg, ?_⟩
     cases a with
-    | anonymous role => simpa [runAuth, anonymousAuth] using hsent
-    | custom m f => simpa [runAuth] using hsent
+    | anonymous role =>
+      simp only [runAuth, anonymousAuth, List.nil_append] at hsent
+      by_cases hq : (fx.welcomeNonBlocking && env.challengeBlocked) = true
+      · rw [if_pos hq] at hsent; exact Or.inr hsent
+      · rw [if_neg hq] at hsent; exact Or.inl hsent
+    | custom m f =>
+      simp only [runAuth, List.nil_append] at hsent
+      by_cases hq : (fx.welcomeNonBlocking && env.challengeBlocked) = true
+      · rw [if_pos hq] at hsent; exact Or.inr hsent
+      · rw [if_neg hq] at hsent; exact Or.inl hsent
     | ticket ks t =>
       simp only [runAuth] at hr hsent hrest ⊢
       obtain ⟨_, _, hcase⟩ := ticketAuth_ok hr
@@ -558,7 +573,8 @@ theorem bound_to_this_challenge {fx : Facts} (hfm : fx.firstMatch = true) {rt : 
       · exact Or.inl ha
       · rw [hs] at hsent
         rw [← hrest] at hacc
-        exact Or.inr ⟨by simpa using hsent, hacc⟩
+        have hb : env.challengeBlocked = false := hacc.1
+        exact Or.inr ⟨by simpa [hb] using hsent, hacc⟩
     | wampcra ks t =>
       simp only [runAuth] at hr hsent hrest ⊢
       obtain ⟨_, _, hcase⟩ := craAuth_ok hr
@@ -566,7 +582,8 @@ theorem bound_to_this_challenge {fx : Facts} (hfm : fx.firstMatch = true) {rt : 
       · exact Or.inl ha
       · rw [hs] at hsent
         rw [← hrest] at hacc
-        exact Or.inr ⟨chStr, by simpa using hsent, hacc⟩
+        have hb : env.challengeBlocked = false := hacc.1
+        exact Or.inr ⟨chStr, by simpa [hb] using hsent, hacc⟩
     | cryptosign ks t =>
       simp only [runAuth] at hr hsent hrest ⊢
       obtain ⟨_, _, _, hcase⟩ := csAuth_ok hr
@@ -574,7 +591,8 @@ theorem bound_to_this_challenge {fx : Facts} (hfm : fx.firstMatch = true) {rt : 
       · exact Or.inl ha
       · rw [hs] at hsent
         rw [← hrest] at hacc
-        exact Or.inr ⟨challenge, by simpa using hsent, hacc⟩
+        have hb : env.challengeBlocked = false := hacc.1
+        exact Or.inr ⟨challenge, by simpa [hb] using hsent, hacc⟩
 
 
 /-! ## Identity -/
@@ -640,6 +658,22 @@ theorem identity_roles_dropped {fx : Facts} {rt : RouterCfg} {env : Env} {arr : 
     · simp [hk, hh, hs]
     · simp [hk, hh, hs, hw]
 
+/-- `identity_of_hello_skip`: a key that the HELLO merge loop skips is never taken from HELLO: what
+    is recorded under it is the WELCOME's value, or nothing.  (With the four identity keys and
+    `session` added to that skip list — the proposed fix — no client-supplied identity survives,
+    whatever the authenticator does; today the list is `helloSkip = [authmethods, roles]`.) -/
+theorem identity_of_hello_skip {fx : Facts} {rt : RouterCfg} {env : Env} {arr : List Arrival}
+    {sid : Nat} {sess w : Dict} (h : (attach fx rt env arr).outcome = .welcome sid sess w)
+    {k : String} (hk : k ≠ fx.sessionKey) (hh : k ∈ fx.helloSkip) :
+    sess.get? k = if k ∈ fx.welcomeSkip then none else w.get? k := by
+  obtain ⟨d, realm, details, rest, rc, created, _, _, _, _, _, _, _, _, hsess⟩ := attach_welcome h
+  subst hsess
+  rw [get?_sessDetails]
+  by_cases hs : k ∈ fx.welcomeSkip
+  · simp [hk, hh, hs]
+  · simp only [hk, hs, hh, if_false, if_true]
+    cases w.get? k <;> rfl
+
 /-- Identity at full strength: whenever a client is welcomed, each of authid, authrole,
     authmethod, authprovider in the recorded details is a value of the WELCOME details built by the
     router and the authenticator. -/
@@ -688,7 +722,7 @@ theorem hello_identity_survives (fx : Facts) (hfm : fx.firstMatch = true) (hsk :
       sess.get? "authrole" = some (.str "admin") ∧ sess.get? "authprovider" = some (.str "evil") ∧
       sess.get? "authid" = some (.str "partial-user") ∧ sess.get? "authmethod" = some (.str "partial") ∧
       sess.get? "session" = some (.int 1) := by
-  obtain ⟨fm, cs, hs, ws, sk⟩ := fx
+  obtain ⟨wnb, fm, cs, hs, ws, sk⟩ := fx
   simp only at hfm hsk hhs hws
   subst hfm; subst hsk; subst hhs; subst hws
   exact ⟨_, _, rfl, rfl, rfl, rfl, rfl, rfl, rfl⟩
@@ -953,6 +987,42 @@ theorem clean_preserves_identity (metaStrict : Bool) (inc : List String) (detail
     · rw [get?_set_ne _ _ hnt]
       exact hclean
 
+
+theorem filter_get?_none (t : Dict) (k : String) :
+    Dict.get? (t.filter (fun kv => kv.1 != k)) k = none := by
+  induction t with
+  | nil => rfl
+  | cons p rest ih =>
+    obtain ⟨k1, v1⟩ := p
+    by_cases h : k1 = k
+    · subst h; simpa [List.filter] using ih
+    · have hb : (k1 != k) = true := by simpa using h
+      simp only [List.filter, hb]
+      rw [get?_cons, if_neg h]
+      exact ih
+
+/-- `clean_hides_transport_auth`: when `transport.auth` is a dictionary (what the websocket
+    server supplies), nobody is shown it. -/
+theorem clean_hides_transport_auth (metaStrict : Bool) (inc : List String) (details : Dict) {t a : Dict}
+    (ht : details.get? "transport" = some (.dict t)) (ha : t.get? "auth" = some (.dict a)) :
+    ∀ t' : Dict, (cleanSessionDetails metaStrict inc details).get? "transport" = some (.dict t') →
+      t'.get? "auth" = none := by
+  intro t' h
+  unfold cleanSessionDetails at h
+  simp only [dictChild, ht, ha] at h
+  rw [get?_set_self] at h
+  split at h
+  · simp at h
+  · simp at h
+    subst h
+    exact filter_get?_none t "auth"
+
+/-- ... but a `transport.auth` that is not a dictionary is shown as it is (`DictChild` treats it as
+    absent).  Only a client can produce that, by writing `transport` into its own HELLO on a
+    transport that supplies no details (rawsocket, in-process): the value shown is its own. -/
+theorem clean_transport_auth_non_dict_shown :
+    (cleanSessionDetails false [] [("transport", .dict [("auth", .str "secret")])]).get? "transport" =
+      some (.dict [("auth", .str "secret")]) := rfl
 
 /-! ## Nothing a refused client sends is read -/
 
